@@ -74,12 +74,21 @@ pub fn run_unit<C: Clone + std::fmt::Debug>(
     let mut muted: BTreeSet<String> = BTreeSet::new();
     // statistics of the pass that got furthest (normally the last, complete one)
     let mut best = Stats::default();
-    for _pass in 0..max_passes {
+    let unit_started = std::time::Instant::now();
+    for pass in 0..max_passes {
+        // Looking for *further* signatures behind already recorded failures is bounded in time;
+        // this never turns a failure into a pass.
+        if pass > 0 && unit_started.elapsed().as_secs() > 60 {
+            st.notes.push(format!("unit stopped looking for further failure signatures after {} passes / {} s", pass, unit_started.elapsed().as_secs()));
+            break;
+        }
         let mut runner = TestRunner::new(Config {
             cases,
             rng_seed: RngSeed::Fixed(seed),
             failure_persistence: None,
             max_shrink_iters: 300,
+            // a defect that makes every case slow (crash + re-fork, watchdog) must not stall the unit
+            max_shrink_time: 25_000,
             ..Config::default()
         });
         let cell = RefCell::new((Stats::default(), false, &mut eval));
